@@ -38,7 +38,7 @@ def plant(seed, i):
            expected: 'refuse' | 'remove')"""
     rng = np.random.default_rng([seed, i, 2020])
     kind = ["few-constraints", "non-spanning", "disconnected", "single-element", "single-direction-point",
-            "combo", "random-sub-survey", "dangling-station"][i % 8]
+            "combo", "random-sub-survey", "dangling-station", "dangling-chain"][i % 9]
     if kind == "random-sub-survey":
         # an error-free survey with ~45 % of its observations dropped at random and no approximate coordinates for
         # the unknown points: possibly determined, possibly not -- whatever it is, the four algorithms must agree
@@ -118,6 +118,25 @@ def plant(seed, i):
             o.true = netgen.model_value(net, st, o); o.val = o.true
         net.kind += "+dangling"
         return kind + "-" + datum, net, clean, {"S1"}, "remove"
+    if kind == "dangling-chain":
+        # two new points hung between two network points by three distances (a four-bar linkage: one degree of
+        # freedom), in a free network whose other points are constrained or not: the two points are indeterminable,
+        # the unknowns are renumbered after their removal and the regularisation list changes on the live solver
+        net = netgen.gen_net(rng, dim=2, datum="free", noise=True)
+        clean = net.clone()
+        a_, d_ = [str(x) for x in rng.choice(list(net.points), 2, replace=False)]
+        A_, D_ = net.points[a_], net.points[d_]
+        # names that sort before the network's own points, so that their unknowns come first
+        net.points = dict([("A1", netgen.Pt("A1", A_.E - 400.0, A_.N + 300.0, 0.0, "free", "none")),
+                           ("A2", netgen.Pt("A2", D_.E - 500.0, D_.N - 200.0, 0.0, "free", "none"))] + list(net.points.items()))
+        for (f, t) in ((a_, "A1"), ("A1", "A2"), ("A2", d_)):
+            st = netgen.Cluster("obs", f)
+            o = netgen.Obs("distance", f, t, stdev=5.0)
+            st.obs.append(o)
+            net.clusters.insert(0, st)
+            o.true = netgen.model_value(net, st, o); o.val = o.true
+        net.kind += "+chain"
+        return kind, net, clean, {"A1", "A2"}, "remove"
     if kind in ("single-element", "single-direction-point", "combo"):
         net = netgen.gen_net(rng, dim=2, datum=str(rng.choice(["fixed", "mixed"])), noise=True)
         clean = net.clone()
